@@ -85,6 +85,7 @@ p_tree_bst_remove (PTreeBaseNode	**root_node,
 	PTreeBaseNode	*prev_node;
 	PTreeBaseNode	**node_pointer;
 	pint		cmp_result;
+	ppointer	swap_pointer;
 
 	cur_node     = *root_node;
 	node_pointer = root_node;
@@ -114,8 +115,13 @@ p_tree_bst_remove (PTreeBaseNode	**root_node,
 			prev_node    = prev_node->right;
 		}
 
-		cur_node->key   = prev_node->key;
-		cur_node->value = prev_node->value;
+		swap_pointer     = cur_node->key;
+		cur_node->key    = prev_node->key;
+		prev_node->key   = swap_pointer;
+
+		swap_pointer     = cur_node->value;
+		cur_node->value  = prev_node->value;
+		prev_node->value = swap_pointer;
 
 		cur_node = prev_node;
 	}
